@@ -393,7 +393,8 @@ impl Transport<SimT> for SimTransport {
     async fn join_cluster(&self, leader_id: u32, request: JoinRequest, retry: BackoffPolicy, _membership: Arc<d_engine_core::alias::MOF<SimT>>) -> Result<JoinResponse> {
         let net = self.net.clone();
         let my_id = self.my_id;
-        with_backoff(
+        let net2 = net.clone();
+        let r = with_backoff(
             move || {
                 let net = net.clone();
                 let request = request.clone();
@@ -401,7 +402,15 @@ impl Transport<SimT> for SimTransport {
             },
             retry,
         )
-        .await
+        .await;
+        net2.rec(Ev::JoinResp {
+            learner: my_id,
+            leader: leader_id,
+            success: r.as_ref().map(|x| x.success).unwrap_or(false),
+            duplicate: false,
+            member_before: false,
+        });
+        r
     }
 
     async fn discover_leader(
